@@ -18,6 +18,27 @@ def multicomplex_above_two_raises(n: int, order: int) -> bool:
     return False
 
 
+def multicomplex_above_two_raises_after_setters(n0: int, n: int, order: int, via_method: bool) -> bool:
+    """
+    pre: 1 <= n0 <= 2
+    pre: 3 <= n
+    pre: 1 <= order
+    post: _
+    """
+    # the configuration is reached through the public attributes after construction (n raised, or the method switched)
+    if via_method:
+        rule = LogRule(n=n, method='central', order=order)
+        rule.method = 'multicomplex'
+    else:
+        rule = LogRule(n=n0, method='multicomplex', order=order)
+        rule.n = n
+    try:
+        rule.diff
+    except ValueError:
+        return True
+    return False
+
+
 def multicomplex_up_to_two_is_accepted(n: int, order: int) -> bool:
     """
     pre: 1 <= n <= 2
